@@ -10,6 +10,7 @@ import (
 	"go/types"
 	"reflect"
 	"slices"
+	"strconv"
 	"strings"
 
 	"github.com/kaptinlin/gozod/pkg/tagparser"
@@ -221,7 +222,7 @@ func (a *StructAnalyzer) parseStructFields(structType *ast.StructType) ([]parsed
 
 			hasGozodTag := false
 			if field.Tag != nil {
-				tagValue := strings.Trim(field.Tag.Value, "`")
+				tagValue := tagText(field.Tag)
 				if strings.Contains(tagValue, "gozod:") {
 					hasGozodTag = true
 					gozodTag := extractTagValue(tagValue, "gozod")
@@ -399,7 +400,7 @@ func (a *StructAnalyzer) extractJSONName(field *ast.Field, fieldName string) str
 		return fieldName
 	}
 
-	tagValue := strings.Trim(field.Tag.Value, "`")
+	tagValue := tagText(field.Tag)
 	jsonTag := extractTagValue(tagValue, "json")
 	if jsonTag == "" {
 		return fieldName
@@ -411,6 +412,16 @@ func (a *StructAnalyzer) extractJSONName(field *ast.Field, fieldName string) str
 		return fieldName
 	}
 	return name
+}
+
+// tagText returns the value of a struct tag literal. A tag is usually written
+// as a raw string, but it may be an interpreted one (it has to be when the tag
+// itself contains a backquote).
+func tagText(lit *ast.BasicLit) string {
+	if s, err := strconv.Unquote(lit.Value); err == nil {
+		return s
+	}
+	return strings.Trim(lit.Value, "`")
 }
 
 // extractTagValue returns the value for a specific tag key.
